@@ -678,6 +678,82 @@ def gen_block_history(r, nops, profile):
     return ops
 
 
+def gen_exactfit_history(r, h, label):
+    """a data block driven to 0-3 free bytes (the filler's length is found by asking the implementation for the block geometry
+    after the same prefix: `blk`), then values grown in place across the 127/128 boundary of the record-length varint: the
+    index grows by a byte exactly when there is no room for it"""
+    nk = r.choice([4, 6, 9])
+    klen = r.choice([2, 4, 12])
+    keys = set()
+    while len(keys) < nk + 1:
+        keys.add(bytes(r.randrange(1, 256) for _ in range(klen)))
+    keys = sorted(keys)
+    kf = keys.pop(r.randrange(len(keys)))
+    sizes = {k: r.choice([100, 120, 124, 125, 126, 127, 127, 130, 200]) - 1 - klen for k in keys}
+    boundary = r.random() < 0.6
+    if boundary:      # record length 128..130: two-byte length varint; shrunk below 128 and grown back, the index entry grows by a byte
+        sizes = {k: 128 - 1 - klen + r.choice([0, 0, 1, 2]) for k in keys}
+    ops = ["open 0 1 0", "db 1 0"]
+    nimg = [0]
+
+    def put(k, n, via=None):
+        if via == "cset":
+            ops.extend(["cur 0 open 1 eq %s 0" % G.H(k), "cur 0 set %s 0" % G.H(_val(r, n)), "cur 0 close"])
+        else:
+            ops.append("put 1 %s 0 %s 0 0" % (G.H(k), G.H(_val(r, n))))
+        nimg[0] += 1
+        ops.append("image @IMG%d" % nimg[0])
+    for k in keys:
+        put(k, sizes[k])
+    shrunk = r.sample(keys, min(len(keys) - 1, r.choice([1, 2, 3]) if not boundary else r.choice([3, 4, 5])))
+    for k in shrunk:
+        put(k, max(0, sizes[k] - r.choice([1, 20, 27, 30])) if not boundary else 127 - 1 - klen - r.choice([0, 0, 1, 20]))
+
+    def probe(extra):
+        lines = [l for l in ops if not l.startswith("image ")] + extra + ["blk 1", "close"]
+        rc, out, e = C.run_lines([h, C.scratch() + "/kv6x-%s.db" % label], lines, timeout=60)
+        w = out[-2].split() if len(out) >= 2 else []
+        return [int(x) for x in w[1:]] if len(w) == 6 and w[0] == "blk" else None
+    st0 = probe([])
+    if st0 is None:
+        return None
+    target = r.choice([0, 0, 1, 2, 3])
+    guess = st0[3] - (1 + klen) - 2 - target
+    best = None
+    for _ in range(8):
+        if guess < 0:
+            break
+        st = probe(["put 1 %s 0 %s 0 0" % (G.H(kf), G.H(_val(r, guess)))])
+        if st is None:
+            return None
+        if st[0] != st0[0]:
+            guess -= max(1, (1 << st0[0]) // 64)       # the block grew: the filler was too long
+            continue
+        if best is None or abs(st[3] - target) < abs(best[1] - target):
+            best = (guess, st[3])
+        if st[3] == target:
+            break
+        guess += st[3] - target
+    if best is None:
+        return None
+    if best[1] != target:                          # fine scan around the best guess
+        for gq in range(max(0, best[0] - 10), best[0] + 11):
+            st = probe(["put 1 %s 0 %s 0 0" % (G.H(kf), G.H(_val(r, gq)))])
+            if st is not None and st[0] == st0[0] and abs(st[3] - target) < abs(best[1] - target):
+                best = (gq, st[3])
+                if st[3] == target:
+                    break
+    put(kf, best[0])
+    order = list(shrunk)
+    r.shuffle(order)
+    for k in order:
+        put(k, sizes[k] + (r.choice([0, 0, 1]) if not boundary else 0), via=r.choice([None, "cset"]))
+    for k in r.sample(keys, min(len(keys), 3)):
+        put(k, sizes[k] + r.choice([1, 2, 3]), via=r.choice([None, "cset"]))
+    ops += ["dump 1", "close", "image @IMGclosed"]
+    return ops, dict(target=target, free=best[1], szpow=st0[0])
+
+
 def block_oracle(ops):
     """API-level oracle of the block stream: every answer and the final dump equal the python reference map"""
     ref = G.Ref()
@@ -703,6 +779,14 @@ def explore_block(ctx, h, drv, n, nops, label):
         prof = ["mixed", "small", "compact", "updates", "mixed", "small", "compact", "updates", "sweep"][i % 9]
         ops = [l.replace("@IMG", os.path.join(d, "%s-%d-" % (label, i))) for l in gen_block_history(r, nops, prof)]
         cases.append(Case("block-" + prof, ops, block_oracle(ops), key=hash(tuple(ops))))
+    for i in range(max(4, n // 4)):              # exact-fit blocks (placement found by asking the implementation)
+        g = gen_exactfit_history(r, h, label)
+        if g is None:
+            ctx.hist("block:exactfit-unreached")
+            continue
+        ops = [l.replace("@IMG", os.path.join(d, "%s-x%d-" % (label, i))) for l in g[0]]
+        ctx.hist("block:exactfit-free-%d" % g[1]["free"])
+        cases.append(Case("block-exactfit", ops, block_oracle(ops), key=hash(tuple(ops))))
     ctx.sample(dict(kind="block-history", n_ops=len(cases[0].ops), first_ops=[l[:80] for l in cases[0].ops[:6]]))
     canon = lambda l: "image" if l.startswith("image ") and not l.startswith("image 0") and not l.startswith("image -1") else ("dump" if l.startswith("dump ") else l)
     # in chunks: the images of a chunk are removed before the next one is produced
